@@ -11,6 +11,7 @@ import (
 	"path/filepath"
 	"regexp"
 	"sort"
+	"strconv"
 	"strings"
 	"sync"
 	"time"
@@ -239,7 +240,7 @@ func Drive(args []string) int {
 		b, _ := json.MarshalIndent(v, "", " ")
 		sum := sha1.Sum([]byte(v.Sig))
 		path := filepath.Join(*verifDir, "replay", fmt.Sprintf("%s-%x.json", p.ID, sum[:6]))
-		if len(printed) <= 60 {
+		if len(printed) <= maxReplayFiles() {
 			os.WriteFile(path, b, 0o644)
 		}
 		if len(printed) <= 12 {
@@ -573,4 +574,12 @@ func nonNil(s []any) []any {
 		return []any{}
 	}
 	return s
+}
+
+// maxReplayFiles: 60 replay files per run, more with VERIF_MAXREPLAY (triage aid).
+func maxReplayFiles() int {
+	if n, err := strconv.Atoi(os.Getenv("VERIF_MAXREPLAY")); err == nil && n > 0 {
+		return n
+	}
+	return 60
 }
